@@ -25,5 +25,7 @@ ENGINE = {'name': 'relay',
               'method sets of *layer4.Connection, l4throttle.throttledConn, l4tee.nextConn, *proxyprotocol.Conn (gen/Shape.v) -> whether CloseWrite on down.Conn reaches the transport',
               'not modelled: TCP back-pressure and segment boundaries, goroutine scheduling (arbitrary interleaving of the modelled atomic steps instead), UDP upstreams, TLS'],
  'assumptions': ['scheduler = arbitrary interleaving of the atomic steps of model/Relay.v; chunk sizes are oracles',
-                 'relay_final is claimed for executions without abrupt close, with upstream transports that offer CloseWrite, and applications that do not wait for each other circularly',
+                 'relay_final / relay_completes are claimed for executions without abrupt close, with upstream transports that offer CloseWrite, and applications that do not wait for each other circularly (compatible); relay_safety and relay_terminates hold for all executions including abrupt closes',
+                 'half-close towards the client is proved for chains without the third-party *proxyprotocol.Conn (recorded finding C03:halfclose:client-eof-missing:proxy_protocol)',
+                 'dialPeers: a connection whose PROXY header write fails after a successful dial is not closed by dialPeers (DialOkHeaderErr in the model; excluded from cleanup_on_dial_failure, not reproduced against the real code)',
                  'a full Close of a connection that still has unread incoming data is modelled as graceful']}
